@@ -386,6 +386,10 @@ func (g *Graph) TaskRetries(t *Task, retries int) {
 		g.errs.Errors = append(g.errs.Errors, err)
 		return
 	}
+	if retries < 0 {
+		// A negative count means no retries: the task still runs once.
+		retries = 0
+	}
 	vertex.Retries = retries
 }
 
